@@ -51,7 +51,7 @@ theorem C08_nested_cursor_counterexample :
   decide +kernel
 
 /-! non-vacuity -/
-example : (Dop.struct none (exObjs.map fun ov => ov.1.toParam)).staticBitLen = some 160 := by decide
+example : (Dop.struct none (exObjs.map fun ov => ov.1.toParam)).staticBitLen = some 344 := by decide
 example : ∃ p ∈ exObjs.map (fun ov => ov.1.toParam), (∃ d, p.kind = .value d none) ∧ lookup p.name [("a", PVal.atom (.int 1))] = none :=
   ⟨(⟨"b", some 3, none, some .sm, false, 16, .int32⟩ : Obj).toParam, by simp [exObjs], ⟨_, rfl⟩, by simp [Obj.toParam, Param.name, lookup]⟩
 
